@@ -485,8 +485,16 @@ def biv_inplace(ctx, which):
 
 
 def biv_extra(ctx, which):
+    from . import extra_oracles2 as E2
     biv_history(ctx, which)
     biv_inplace(ctx, which)
+    meths = [m for m in _BIV_METHODS[which]]
+    E2.biv_near_independence(ctx, meths + (['log_probability_density'] if which == 'C07' and 'log_probability_density' not in meths else []))
+    E2.biv_error_state(ctx, [m for m in meths if m != 'sample'])
+    if which == 'C06':
+        E2.biv_boundary_rows(ctx, ['cumulative_distribution'])      # C06's domain includes the boundary of the square; C07's does not
+    if which == 'C08':
+        E2.biv_ppf_containers(ctx)
     if which in ('C06', 'C07'):
         biv_layouts(ctx, which)
     if which == 'C09':
